@@ -110,7 +110,7 @@ fn value_case(c: &J) -> J {
         Err(_) => "noenc",
     };
     json!({"k": "value", "ty": "value", "v": c["v"], "dec": dec_slice, "rd": dec_reader, "cons": consumed, "enc": tag(&enc), "re": re,
-           "rt": rt, "size": size, "tv": tv, "tvback": tv, "tree": c["v"], "lazy": lazy, "same": "ok", "proj": "ok"})
+           "rt": rt, "size": size, "tv": tv, "tvback": tv, "tree": c["v"], "lazy": lazy, "same": "ok", "proj": "ok", "dbg": ""})
 }
 
 /// Facts about one typed item decoded as `T`.
@@ -149,6 +149,8 @@ where
     }
     let mut tree = json!({"t": "null"});
     let mut tvback = "nodec";
+    // the decoded item's Debug rendering: field names with their values, for the field-position projection
+    let dbg: String = first.as_ref().map(|x| format!("{x:?}").chars().take(8000).collect()).unwrap_or_default();
     let (enc, re, rt, size, tv, pj) = match &first {
         None => ("nodec", vec![], "nodec", "nodec", "nodec", "nodec"),
         Some(x) => {
@@ -171,7 +173,7 @@ where
         }
     };
     json!({"k": c["k"], "ty": c["ty"], "v": c["v"], "dec": dec, "rd": rdv, "cons": cons, "enc": enc, "re": re,
-           "rt": rt, "size": size, "tv": tv, "tvback": tvback, "tree": tree, "lazy": "ok", "same": all_same, "proj": pj})
+           "rt": rt, "size": size, "tv": tv, "tvback": tvback, "tree": tree, "lazy": "ok", "same": all_same, "proj": pj, "dbg": dbg})
 }
 
 /// Equality of decoded typed items by their Debug rendering (several protocol types have no PartialEq).
